@@ -47,43 +47,6 @@ def dens (env : Env) : List Bit → Option (List Bool)
     | some x, some xs => some (x :: xs)
     | _, _ => none
 
-/-- a bit is its stripped form, complemented or not -/
-theorem strip_den (env : Env) : ∀ (x : Bit) (p : Bool), bitDen env x = some p → bitDen env x.strip.1 = some (p ^^ x.strip.2)
-  | .c b, p, h => by
-    simp only [bitDen, Option.some.injEq] at h
-    subst h
-    simp [Bit.strip, bitDen]
-  | .of t i ng, p, h => by
-    simp only [Bit.strip, bitDen] at h ⊢
-    cases hv : eval env t with
-    | err => simp [hv] at h
-    | bool b => simp [hv] at h
-    | bv w n =>
-      simp only [hv, Option.some.injEq] at h ⊢
-      subst h
-      cases n.testBit i <;> cases ng <;> rfl
-  | .p t ng, p, h => by
-    simp only [Bit.strip, bitDen] at h ⊢
-    cases hv : eval env t with
-    | err => simp [hv] at h
-    | bv w n => simp [hv] at h
-    | bool b =>
-      simp only [hv, Option.some.injEq] at h ⊢
-      subst h
-      cases b <;> cases ng <;> rfl
-  | .bin k a b ng, p, h => by
-    simp only [Bit.strip, bitDen] at h ⊢
-    cases ha : bitDen env a with
-    | none => simp [ha] at h
-    | some x =>
-      cases hb : bitDen env b with
-      | none => simp [ha, hb] at h
-      | some y =>
-        simp only [ha, hb, Option.some.injEq] at h ⊢
-        subst h
-        cases k.g x y <;> cases ng <;> rfl
-  | .mux e a b, p, h => by simpa [Bit.strip] using h
-
 theorem xorNeg_den (env : Env) (x : Bit) (n : Bool) (p : Bool) (h : bitDen env x = some p) :
     bitDen env (x.xorNeg n) = some (p ^^ n) := by
   cases n <;> simp [Bit.xorNeg, bitDen_not, h]
@@ -569,6 +532,10 @@ example : cmpEquiv (.app .eq [.app .concat [.bvv 0 8, .app .ite [.bools "c", .bv
     (.app .not [.bools "c"]) = true := by decide
 example : cmpEquiv (.app .ne [.app .band [.app .bor [.bvs "y" 4, .bvs "x" 4], .bvv 1 4], .bvv 0 4])
     (.app .ne [.app .bor [.app (.extract 0 0) [.bvs "y" 4], .app (.extract 0 0) [.bvs "x" 4]], .bvv 0 1]) = true := by decide
+example : cmpEquiv (.app .eq [.app (.zeroExt 1) [.app .ite [.app .not [.bools "p"], .bvv 1 1, .bvv 0 1]], .bvv 1 2]) (.app .not [.bools "p"]) = true := by
+  decide
+example : cmpEquiv (.app .eq [.app (.zeroExt 1) [.app .ite [.app .not [.bools "p"], .bvv 1 1, .bvv 0 1]], .bvv 1 2]) (.bools "p") = false := by
+  decide
 example : cmpEquiv (.app .eq [.app .concat [.bvv 0 8, .app .ite [.bools "c", .bvv 0 2, .bvv 3 2]], .bvv 3 10]) (.bools "c") = false := by
   decide
 example : cmpEquiv (.app .ne [.app .concat [.bvv 0 8, .app .ite [.bools "c", .bvv 0 2, .bvv 3 2]], .bvv 3 10]) (.bools "d") = false := by
